@@ -343,7 +343,7 @@ var c14SmallChans = []string{"#x", "#y"}
 func genSmallOp(t *rapid.T) trOp {
 	n := func() string { return rapid.SampledFrom(c14SmallNicks).Draw(t, "n") }
 	c := func() string { return rapid.SampledFrom(c14SmallChans).Draw(t, "c") }
-	switch op := rapid.SampledFrom([]string{"NewNick", "GetNick", "ReNick", "DelNick", "NickInfo", "NewChannel", "GetChannel", "DelChannel", "Topic", "ChannelModes", "Me", "IsOn", "Associate", "Associate", "Dissociate", "Wipe", "NickModes"}).Draw(t, "op"); op {
+	switch op := rapid.SampledFrom([]string{"NewNick", "GetNick", "ReNick", "DelNick", "NickInfo", "NewChannel", "GetChannel", "DelChannel", "Topic", "ChannelModes", "Me", "IsOn", "Associate", "Associate", "Dissociate", "Wipe", "NickModes", "String"}).Draw(t, "op"); op {
 	case "NewNick", "GetNick", "DelNick":
 		return trOp{Op: op, A: n()}
 	case "ReNick":
@@ -361,7 +361,7 @@ func genSmallOp(t *rapid.T) trOp {
 	case "IsOn", "Associate", "Dissociate":
 		return trOp{Op: op, A: c(), B: n()}
 	}
-	return trOp{Op: rapid.SampledFrom([]string{"Me", "Wipe"}).Draw(t, "nullary")}
+	return trOp{Op: rapid.SampledFrom([]string{"Me", "Wipe", "String", "String"}).Draw(t, "nullary")}
 }
 
 func genC14Conc(t *rapid.T) *c14Conc {
